@@ -269,13 +269,14 @@ struct ThreadRun<'a, P: Prop> {
     buf: Vec<u8>,
     opts: &'a WorkerOpts,
     ignore_sigs: Vec<String>,
+    tid: usize,
     _p: std::marker::PhantomData<P>,
 }
 
 impl<'a, P: Prop> ThreadRun<'a, P> {
     fn new(opts: &'a WorkerOpts, tid: usize) -> Self {
         let journal = std::fs::File::create(opts.out_dir.join(format!("journal.{}", tid))).ok();
-        ThreadRun { stats: Stats { enum_complete: true, ..Stats::default() }, journal, buf: Vec::with_capacity(4096), opts, ignore_sigs: Vec::new(), _p: Default::default() }
+        ThreadRun { stats: Stats { enum_complete: true, ..Stats::default() }, journal, buf: Vec::with_capacity(4096), opts, ignore_sigs: Vec::new(), tid, _p: Default::default() }
     }
 
     /// Execute one case with journaling and accounting. `count` is false while proptest
@@ -333,10 +334,14 @@ impl<'a, P: Prop> ThreadRun<'a, P> {
         if self.stats.failures.iter().any(|g| g["sig"].as_str() == Some(f.sig.as_str())) {
             return;
         }
-        self.stats.failures.push(json!({
+        let doc = json!({
             "property": P::ID, "substrate": substrate(), "seed": self.opts.seed, "origin": origin,
             "sig": f.sig, "verdict": f.msg, "shrunk": shrunk, "case": serde_json::to_value(case).unwrap(),
-        }));
+        });
+        // also written at once, so that it survives a later hang or crash of this worker
+        let live = self.opts.out_dir.join(format!("live-fail-{}-{}-{}.json", substrate(), self.tid, self.stats.failures.len()));
+        let _ = std::fs::write(live, serde_json::to_string(&doc).unwrap());
+        self.stats.failures.push(doc);
         self.ignore_sigs.push(f.sig.clone());
     }
 }
